@@ -74,6 +74,7 @@ func ParseTypeRef(s string) (*TypeRef, error) {
 
 			typeListStr := s[i+1 : len(s)-1]
 			inTypeParam := false
+			depth := 0
 			started := 0
 
 			commit := func(i int) error {
@@ -89,9 +90,15 @@ func ParseTypeRef(s string) (*TypeRef, error) {
 			for i, c := range typeListStr {
 				switch c {
 				case '[':
+					depth++
 					inTypeParam = true
 				case ']':
+					depth--
 					inTypeParam = false
+					if depth > 0 {
+						// still inside an outer bracket group
+						inTypeParam = true
+					}
 				case ',':
 					if !inTypeParam {
 						if err := commit(i); err != nil {
